@@ -75,6 +75,20 @@ fn dep_is_asset(d: &Dependency) -> bool {
 /// built-in, 2 = malformed jsr:/npm: specifier, 3 = a valid jsr: specifier when jsr specifiers are passed
 /// through (marked external at once). Valid jsr: specifiers without passthrough belong to the registry
 /// stage and are not generated in B1 worlds.
+/// The class entry of a specifier in the world's wire format: None = loaded through the loader.
+pub fn spec_class_sx(spec: &str, world: &World, it: &mut Intern) -> Option<Sx> {
+  if spec.starts_with("npm:") && world.npm.is_some() {
+    if let Some(r) = ModuleSpecifier::parse(spec).ok().and_then(|u| deno_semver::npm::NpmPackageReqReference::from_specifier(&u).ok()) {
+      // 4 = a valid npm: specifier handed to the npm resolver, with its requirement
+      return Some(Sx::L(vec![Sx::A(4), Sx::A(it.misc(&format!("npmreq:{}", r.req())))]));
+    }
+  }
+  match spec_class(spec, world.passthrough_jsr) {
+    0 => None,
+    c => Some(Sx::A(c)),
+  }
+}
+
 pub fn spec_class(spec: &str, passthrough_jsr: bool) -> u64 {
   let scheme = spec.split(':').next().unwrap_or("");
   match scheme {
@@ -179,13 +193,18 @@ pub fn abs_world_full(
     let r = abs_entry(spec, e, parsed_reload.get(spec), it, world.final_specifiers.get(spec));
     reloads.push(Sx::L(vec![Sx::A(it.spec(spec)), r]));
   }
-  let classes = Sx::L(
-    it.specs
-      .iter()
-      .filter(|(s, _)| spec_class(s, world.passthrough_jsr) != 0)
-      .map(|(s, id)| Sx::atoms([*id, spec_class(s, world.passthrough_jsr)]))
-      .collect(),
-  );
+  let spec_ids: Vec<(String, u64)> = it.specs.iter().map(|(s, id)| (s.clone(), *id)).collect();
+  let mut class_items = vec![];
+  for (s, id) in &spec_ids {
+    if let Some(c) = spec_class_sx(s, world, it) {
+      class_items.push(Sx::L(vec![Sx::A(*id), c]));
+    }
+  }
+  let classes = Sx::L(class_items);
+  let npm_sx = match &world.npm {
+    None => Sx::opt(None),
+    Some(a) => Sx::opt(Some(Sx::L(a.iter().map(|(r, c)| Sx::atoms([it.misc(&format!("npmreq:{}", r)), *c as u64])).collect()))),
+  };
   let files = Sx::atoms(it.specs.iter().filter(|(s, _)| s.starts_with("file:")).map(|(_, id)| *id));
   let https = Sx::atoms(it.specs.iter().filter(|(s, _)| s.starts_with("http:") || s.starts_with("https:")).map(|(_, id)| *id));
   let lock_sx = match lock {
@@ -195,7 +214,7 @@ pub fn abs_world_full(
       Sx::opt(Some(Sx::L(items)))
     }
   };
-  Sx::L(vec![Sx::L(resps), Sx::L(reloads), classes, files, https, lock_sx, Sx::A(max_redirects as u64)])
+  Sx::L(vec![Sx::L(resps), Sx::L(reloads), classes, files, https, lock_sx, Sx::A(max_redirects as u64), npm_sx])
 }
 
 fn abs_ref(r: Option<&Range>, it: &mut Intern) -> Sx {
@@ -215,10 +234,14 @@ pub fn abs_berr(e: &ModuleError, it: &mut Intern) -> Sx {
         ModuleLoadError::HttpsChecksumIntegrity(_) => (1, 3),
         ModuleLoadError::Jsr(JsrLoadError::PackageFormat(_)) => (7, 0),
         ModuleLoadError::Npm(NpmLoadError::PackageReqReferenceParse(_)) => (7, 0),
+        ModuleLoadError::Npm(NpmLoadError::RegistryInfo(_)) => (8, 0),
+        ModuleLoadError::Npm(NpmLoadError::PackageReqResolution(_)) => (8, 1),
         _ => (1, 9),
       };
       if tag == 7 {
         Sx::L(vec![Sx::A(7), Sx::A(it.spec(specifier.as_str())), abs_ref(maybe_referrer.as_ref(), it)])
+      } else if tag == 8 {
+        Sx::L(vec![Sx::A(8), Sx::A(it.spec(specifier.as_str())), abs_ref(maybe_referrer.as_ref(), it), Sx::A(k)])
       } else {
         Sx::L(vec![Sx::A(1), Sx::A(it.spec(specifier.as_str())), abs_ref(maybe_referrer.as_ref(), it), Sx::A(k)])
       }
@@ -280,8 +303,15 @@ pub fn abs_bgraph_full(g: &ModuleGraph, log: &[LoadCall], lock_sets: &[(String, 
       .map(|(k, imp)| Sx::L(vec![Sx::A(it.spec(k.as_str())), abs_deps(&imp.dependencies, it)]))
       .collect(),
   );
+  // the npm resolver's batches travel in the loader log as pseudo calls
+  let batches: Vec<Sx> = log
+    .iter()
+    .filter(|c| c.cache_setting == "npm")
+    .map(|c| Sx::atoms(c.specifier.split(' ').filter(|r| !r.is_empty()).map(|r| it.misc(&format!("npmreq:{}", r))).collect::<Vec<_>>()))
+    .collect();
   let loads = log
     .iter()
+    .filter(|c| c.cache_setting != "npm")
     .map(|c| {
       let ck = c.checksum.as_ref().map(|h| Sx::A(it.misc(&format!("sha:{}", h))));
       Sx::L(vec![Sx::A(it.spec(&c.specifier)), Sx::b(c.asset), Sx::b(c.reload), Sx::opt(ck)])
@@ -297,6 +327,7 @@ pub fn abs_bgraph_full(g: &ModuleGraph, log: &[LoadCall], lock_sets: &[(String, 
     Sx::b(g.has_node_specifier),
     Sx::set(loads),
     Sx::set(sets),
+    Sx::L(vec![Sx::L(batches), Sx::b(g.npm_dep_graph_result.is_ok())]),
   ])
 }
 
